@@ -587,7 +587,7 @@ func TestVerif_C22(t *testing.T) {
 	r := vrt.Begin(t, "C22", "model_checking")
 	defer r.End()
 	r.Rule("A (sequential, each case in its own single-caller controlled execution, operation done twice so that pooled writers are reused): bodies {empty,1B,199/200/201B (minCompressLen=200),4KiB text,64KiB random,1MiB mixed} x levels -5..12 x " +
-		fmt.Sprintf("{gzip,deflate,br,zstd} x %d Accept-Encoding values (tokens, lists, q=0 exclusions, case, '*', empty, absent, substrings) x {SetBody, SetBodyStream sized/unsized, SetBodyStreamWriter} x handler-set Content-Encoding/Vary/Content-Type ", len(c22AEs)+1) +
+		fmt.Sprintf("{gzip,deflate,br,zstd} x %d Accept-Encoding values (tokens, lists, q=0 exclusions, case, '*', empty, absent, substrings) x {SetBody, SetBodyRaw, ctx.Write, SetBodyStream sized/unsized, SetBodyStreamWriter} x handler-set Content-Encoding/Vary/Content-Type ", len(c22AEs)+1) +
 		"(the sub-products enumerated per tier are listed under seq_space) " +
 		"through CompressHandler/CompressHandlerLevel/CompressHandlerBrotliLevel served by the real Server.ServeConn, response read back by net/http and decoded by compress/gzip, compress/zlib, andybalholm/brotli, klauspost/zstd: " +
 		"decodes per declared Content-Encoding to exactly the handler's body, coding accepted by the request, handler-declared coding untouched, Vary: Accept-Encoding when compressed; every Append*/Write* form round-trips through the reference decoder and the library's own AppendUn*/WriteUn*. " +
